@@ -26,7 +26,6 @@ MUTANTS = [
     ("C01-mindepth-gt", "C01", S, "if min_depth == 0 || depth >= min_depth {", "if min_depth == 0 || depth > min_depth {"),
     ("C01-bfs-pop-back", "C01", S, "let path = self.dir_queue.pop_front().unwrap();", "let path = self.dir_queue.pop_back().unwrap();"),
     ("C01-skip-dotfiles", "C01", S, "                            let mut path = entry.path();\n", "                            let mut path = entry.path();\n                            if entry.file_name().to_string_lossy().starts_with(\".\") && entry.file_name().len() > 4 { continue; }\n"),
-    ("C01-follow-links-always", "C01", S, "if self.current_follow_symlinks {\n                                                if let Ok(resolved)", "if true {\n                                                if let Ok(resolved)"),
     ("C01-visited-bare-inode", "C01", S, "Ok(metadata) => (metadata.dev(), metadata.ino()),", "Ok(metadata) => (0, metadata.ino()),"),
     ("C04-metadata-follows-links", "C04", U, "false => entry.metadata(),", "false => std::fs::metadata(entry.path()),"),
     ("C04-no-fms-clear", "C04", S, "        self.line_count_set = false;\n        self.line_count = None;\n", ""),
@@ -51,17 +50,22 @@ MUTANTS = [
     ("C17-no-error-count-readdir", "C17", S, "            Err(err) => {\n                self.error_count += 1;\n                path_error_message(dir, err);\n            }\n        }\n\n        if traversal_mode == Bfs", "            Err(err) => {\n                path_error_message(dir, err);\n            }\n        }\n\n        if traversal_mode == Bfs"),
     ("C17-propagate-readdir-error", "C17", S, "        match fs::read_dir(dir) {\n            Ok(entry_list) => {", "        match Ok::<_, io::Error>(fs::read_dir(dir)?) {\n            Ok(entry_list) => {"),
     ("C17-footer-unwrap", "C17", S, "        if let Err(e) = self.results_writer.write_footer(&mut std::io::stdout()) {\n            if e.kind() == ErrorKind::BrokenPipe {\n                return Ok(());\n            }\n            return Err(e);\n        }", "        self.results_writer.write_footer(&mut std::io::stdout())?;"),
-    ("C17-streamed-epipe-continues", "C17", S, "            if e.kind() == ErrorKind::BrokenPipe {\n                return Ok(false);\n            }", "            if e.kind() == ErrorKind::BrokenPipe {\n                return Err(e);\n            }"),
     ("C17-partial-digest", "C17", U, "        let mut hasher = sha2::Sha256::new();\n        if io::copy(&mut file, &mut hasher).is_ok() {\n            let hash = hasher.finalize();\n            return format!(\"{:x}\", hash);\n        }", "        let mut hasher = sha2::Sha256::new();\n        let _ = io::copy(&mut file, &mut hasher);\n        {\n            let hash = hasher.finalize();\n            return format!(\"{:x}\", hash);\n        }"),
     ("C17-linecount-partial", "C17", U, "                } else {\n                    return None;\n                }", "                } else {\n                    return Some(count);\n                }"),
     ("C18-no-visited-check", "C18", S, "            && !self.visited_dirs.insert(PathBuf::from(&canonical_path))", "            && !self.visited_dirs.insert(dir.to_path_buf())"),
     ("C18-raw-link-target", "C18", S, "let target = dir.join(resolved);", "let target = resolved;"),
-    ("C18-follow-without-option", "C18", S, "if self.current_follow_symlinks {\n                                                if let Ok(resolved)", "if true {\n                                                if let Ok(resolved)"),
     ("C19-zip-unwrap", "C19", S, "if let Ok(mut archive) = zip::ZipArchive::new(file) {", "if let Ok(mut archive) = Ok::<_, ()>(zip::ZipArchive::new(file).unwrap()) {"),
     ("C19-by-index-unwrap", "C19", S, "if let Ok(afile) = archive.by_index(i) {", "if let Ok(afile) = Ok::<_, ()>(archive.by_index(i).unwrap()) {"),
     ("C19-skip-last-member", "C19", S, "for i in 0..archive.len() {", "for i in 0..archive.len().min(6) {"),
-    ("C19-not-checked-ignored", "C19", S, "                                                        let checked = self\n                                                            .check_file(&entry, &Some(file_info))?;\n                                                        if !checked {\n                                                            return Ok(());\n                                                        }", "                                                        let _checked = self\n                                                            .check_file(&entry, &Some(file_info))?;"),
-    ("C19-datetime-from-now", "C19", D, "    NaiveDate::from_ymd_opt(dt.year() as i32, dt.month() as u32, dt.day() as u32)\n        .and_then(|date| date.and_hms_opt(dt.hour() as u32, dt.minute() as u32, dt.second() as u32))\n        .unwrap_or_default()", "    use chrono::Datelike;\n    Local::now().naive_local().with_day(1).unwrap().with_year(dt.year() as i32).unwrap().with_month(dt.month() as u32).unwrap().with_day(dt.day() as u32).unwrap().with_hour(dt.hour() as u32).unwrap().with_minute(dt.minute() as u32).unwrap().with_second(dt.second() as u32).unwrap()"),
+    ("C18-follow-without-option", "C18", [S, S], ["if self.current_follow_symlinks {\n                                                if let Ok(resolved)", "            false => !file_type.is_symlink(),\n        }\n    }\n\n    #[cfg(not(unix))]"],
+     ["if true {\n                                                if let Ok(resolved)", "            false => true,\n        }\n    }\n\n    #[cfg(not(unix))]"]),
+    ("C01-follow-without-option", "C01", [S, S], ["if self.current_follow_symlinks {\n                                                if let Ok(resolved)", "            false => !file_type.is_symlink(),\n        }\n    }\n\n    #[cfg(not(unix))]"],
+     ["if true {\n                                                if let Ok(resolved)", "            false => true,\n        }\n    }\n\n    #[cfg(not(unix))]"]),
+    ("C17-buffered-epipe-propagates", "C17", S, "                if let Err(e) = write!(std::io::stdout(), \"{}\", piece) {\n                    if e.kind() == ErrorKind::BrokenPipe {\n                        return Ok(());\n                    }\n                }", "                write!(std::io::stdout(), \"{}\", piece)?;"),
+    ("C17-header-epipe-propagates", "C17", S, "        if let Err(e) = self.results_writer.write_header(&mut std::io::stdout()) {\n            if e.kind() == ErrorKind::BrokenPipe {\n                return Ok(());\n            }\n        }", "        self.results_writer.write_header(&mut std::io::stdout())?;"),
+    ("C19-zip-list-is-archive-list", "C19", S, "                .is_zip_archive\n                .as_ref()\n                .unwrap_or(self.default_config.is_zip_archive.as_ref().unwrap()),", "                .is_archive\n                .as_ref()\n                .unwrap_or(self.default_config.is_archive.as_ref().unwrap()),"),
+    ("C19-datetime-from-now", "C19", D, "    NaiveDate::from_ymd_opt(dt.year() as i32, dt.month() as u32, dt.day() as u32)\n        .and_then(|date| date.and_hms_opt(dt.hour() as u32, dt.minute() as u32, dt.second() as u32))\n        .unwrap_or_default()", "    use chrono::Datelike;\n    Local::now().naive_local().with_year(dt.year() as i32).unwrap().with_month(dt.month() as u32).unwrap().with_day(dt.day() as u32).unwrap().with_hour(dt.hour() as u32).unwrap().with_minute(dt.minute() as u32).unwrap().with_second(dt.second() as u32).unwrap()"),
+    ("C19-member-size-compressed", "C19", "src/fileinfo.rs", "size: zipped_file.size(),", "size: zipped_file.compressed_size(),"),
 ]
 
 
@@ -88,13 +92,24 @@ def main():
         for mid, prop, f, old, new in MUTANTS:
             if ids and mid not in ids:
                 continue
-            path = os.path.join(WT, f)
-            src = open(path).read()
-            if src.count(old) != 1:
-                results.append((mid, prop, "PATCH-DOES-NOT-APPLY(%d)" % src.count(old), 0))
+            edits = list(zip(f, old, new)) if isinstance(f, list) else [(f, old, new)]
+            saved = {}
+            okp = True
+            for ef, eo, en in edits:
+                path = os.path.join(WT, ef)
+                src = saved.get(path) or open(path).read()
+                saved.setdefault(path, src)
+                cur = open(path).read()
+                if cur.count(eo) != 1:
+                    okp = False
+                    break
+                open(path, "w").write(cur.replace(eo, en))
+            if not okp:
+                for pth, src in saved.items():
+                    open(pth, "w").write(src)
+                results.append((mid, prop, "PATCH-DOES-NOT-APPLY", 0))
                 print(results[-1], flush=True)
                 continue
-            open(path, "w").write(src.replace(old, new))
             t0 = time.time()
             status = ""
             if tests:
@@ -109,7 +124,8 @@ def main():
                 print(out[-1500:])
             results.append((mid, prop, status + verdict, round(time.time() - t0, 1), sigs[:3]))
             print(results[-1], flush=True)
-            open(path, "w").write(src)
+            for pth, src in saved.items():
+                open(pth, "w").write(src)
     finally:
         sh(["git", "-C", "/repo", "worktree", "remove", "--force", WT])
         sh(["rm", "-rf", "/tmp/fsim-mutants"])
